@@ -1,13 +1,5 @@
-mod driver;
-mod exact;
-mod gen;
-mod mk;
-mod model;
-mod props;
-mod tape;
-mod wire;
-
-use driver::Tier;
+use ommx_verif::driver::{self, Tier};
+use ommx_verif::{props, tape};
 
 fn usage() -> ! {
     eprintln!("usage: ommx-verif run <ID> [quick|thorough] [--seed N] | replay <file> | list");
@@ -76,6 +68,35 @@ panic inside the child process", args[2]);
                     std::process::exit(3)
                 }
             }
+        }
+        "tape" => {
+            // ommx-verif tape <ID> <file with raw tape bytes> : used for libFuzzer artifacts
+            if args.len() < 4 {
+                usage();
+            }
+            let Some(p) = props.iter().find(|p| p.id() == args[2]) else { std::process::exit(2) };
+            let bytes = std::fs::read(&args[3]).unwrap_or_else(|e| driver::inconclusive(&format!("cannot read {}: {e}", args[3])));
+            std::process::exit(driver::report_tape(p.as_ref(), &bytes));
+        }
+        "tape-max" => {
+            let Some(p) = props.iter().find(|p| Some(p.id()) == args.get(2).map(|s| s.as_str())) else { std::process::exit(2) };
+            println!("{}", p.tape_max());
+        }
+        "seeds" => {
+            // ommx-verif seeds <ID> <dir> : initial corpus for libFuzzer = saved regression tapes + tapes derived from VERIF_SEED
+            if args.len() < 4 {
+                usage();
+            }
+            let Some(p) = props.iter().find(|p| p.id() == args[2]) else { std::process::exit(2) };
+            let seed: u64 = std::env::var("VERIF_SEED").ok().and_then(|s| s.trim().parse::<i128>().ok()).map(|v| v as u64).unwrap_or(0);
+            std::process::exit(driver::write_seed_corpus(p.as_ref(), seed, &args[3]));
+        }
+        "fuzz-evidence" => {
+            // ommx-verif fuzz-evidence <ID> <executions> <corpus files> <crashes> : append the campaign to the evidence file
+            if args.len() < 6 {
+                usage();
+            }
+            std::process::exit(driver::append_fuzz_evidence(&args[2], &args[3], &args[4], &args[5]));
         }
         "replay" => {
             if args.len() < 3 {
